@@ -313,7 +313,12 @@ pub struct OptSpec {
 }
 
 impl OptSpec {
+    /// through the public builder, as a caller (and the CLI) would set the derive string
     pub fn to_options(&self) -> Options {
+        sut::opts_custom(&self.prefix, &self.text_id, "", self.by_name).derive(&self.derive)
+    }
+    /// as a struct literal, bypassing the builder
+    pub fn to_options_literal(&self) -> Options {
         sut::opts_custom(&self.prefix, &self.text_id, &self.derive, self.by_name)
     }
     pub fn json(&self) -> Value {
@@ -339,6 +344,9 @@ pub const DERIVES: &[&str] = &[
     "Debug)] #[cfg(x",
     "\n",
     " ",
+    "Debug, Clone, Debug",
+    "Serialize, Deserialize, Serialize, Debug, PartialEq",
+    "A, A",
 ];
 
 const OPT_CHARS: &[char] = &[
